@@ -2,6 +2,7 @@ package impl
 
 import (
 	"fmt"
+	"strings"
 
 	lucene "github.com/grindlemire/go-lucene"
 	"github.com/grindlemire/go-lucene/internal/lex"
@@ -189,6 +190,32 @@ func RunLexObs(s string, peeks uint64) (obs LexObs) {
 			return obs
 		}
 		pos += len(t.Val)
+		// delimiters, judged independently of the lexer: a quoted token is opened and closed by the same quote character
+		// with none in between; a regexp token is closed by the FIRST slash that is not preceded by an odd run of
+		// backslashes (an unterminated quote / regexp must be a lexical error, never a token)
+		switch t.Typ {
+		case lex.TQuoted:
+			v := t.Val
+			if len(v) < 2 || (v[0] != '"' && v[0] != '\'') || v[len(v)-1] != v[0] || strings.IndexByte(v[1:len(v)-1], v[0]) >= 0 {
+				obs.Fails = append(obs.Fails, fmt.Sprintf("token %d %q is not one quoted phrase closed by its own quote character", n, v))
+			}
+		case lex.TRegexp:
+			v := t.Val
+			closed := -1
+			for i := 1; i < len(v); i++ {
+				if v[i] == '\\' {
+					i++
+					continue
+				}
+				if v[i] == '/' {
+					closed = i
+					break
+				}
+			}
+			if len(v) < 2 || v[0] != '/' || closed != len(v)-1 {
+				obs.Fails = append(obs.Fails, fmt.Sprintf("token %d %q is not one regexp closed by its first unescaped slash (an unterminated regexp must be an error)", n, v))
+			}
+		}
 		if n > 0 {
 			sb = append(sb, ',')
 		}
